@@ -12,7 +12,7 @@ for f in $wt/zz_seed_test.go $wt/log/zz_seed_test.go; do [ -f $f ] && cp $f $out
 pkgdir=.; [ -f $wt/log/zz_seed_test.go ] && pkgdir=./log
 cd $wt
 echo "== demo WITH change"; (timeout 600 go test -vet=off -count=1 -run TestSeedDemo $pkgdir 2>&1 | grep -v "INFO\|WARN" | tail -4) | tee $out/demo_with.txt
-git stash push -q -- $(git diff --name-only) ; echo "== demo WITHOUT change"; (timeout 600 go test -vet=off -count=1 -run TestSeedDemo $pkgdir 2>&1 | grep -v "INFO\|WARN" | tail -3) | tee $out/demo_without.txt; git stash pop -q
+git apply -R $out/patch.diff; echo "== demo WITHOUT change"; (timeout 600 go test -vet=off -count=1 -run TestSeedDemo $pkgdir 2>&1 | grep -v "INFO\|WARN" | tail -3) | tee $out/demo_without.txt; git apply $out/patch.diff
 cd /repo && git apply $out/patch.diff || { echo "PATCH DOES NOT APPLY to /repo"; exit 3; }
 cd /verif
 for p in "$@"; do
